@@ -916,6 +916,20 @@ func (e *Env) uninterp(it *Item, pkg *types.Package, args []Value) Value {
 	if !e.declared[name] {
 		e.declared[name] = true
 		e.sess.Cmd("(declare-fun " + name + " (" + strings.Join(sorts, " ") + ") " + rl[0].Sort + ")")
+		// results respect their Go type's range
+		if len(sorts) > 0 {
+			var ds, as []string
+			for i, srt := range sorts {
+				ds = append(ds, fmt.Sprintf("(|$a%d| %s)", i, srt))
+				as = append(as, fmt.Sprintf("|$a%d|", i))
+			}
+			app := sx(name, as...)
+			if r := e.rangeFact(app, rl[0]); r != tTrue {
+				e.sess.Cmd("(assert (forall (" + strings.Join(ds, " ") + ") (! " + r + " :pattern (" + app + "))))")
+			}
+		} else if r := e.rangeFact(name, rl[0]); r != tTrue {
+			e.sess.Cmd("(assert " + r + ")")
+		}
 	}
 	if len(ts) == 0 {
 		return e.fromLeaves(rt, []string{name})
